@@ -128,7 +128,22 @@ def sparse_large():
             mkcfg("DiskRevolve", max_n=64, ram=2), mkcfg("PeriodicDiskRevolve", max_n=80, ram=3),
             mkcfg("Revolve", max_n=75, ram=5), mkcfg("SingleDiskCopy", N=60, passes=2), mkcfg("SingleMemory", N=200, passes=2),
             mkcfg("TwoLevel", N=7, passes=7, period=3, ram=1, st=0), mkcfg("TwoLevel", N=8, passes=6, period=4, ram=2, st=1),
-            mkcfg("SingleDiskCopy", N=3, passes=7), mkcfg("SingleMemory", N=2, passes=8)]
+            mkcfg("SingleDiskCopy", N=3, passes=7), mkcfg("SingleMemory", N=2, passes=8),
+            # beyond CPython's small-int cache (an `is` for an `==` only shows above 256)
+            mkcfg("TwoLevel", N=300, passes=2, period=60, ram=2, st=0), mkcfg("TwoLevel", N=263, passes=1, period=7, ram=1, st=1),
+            mkcfg("SingleDiskCopy", N=270, passes=2), mkcfg("SingleDiskMove", N=260, passes=1),
+            mkcfg("Multistage", max_n=300, ram=2, disk=3), mkcfg("Mixed", max_n=280, ram=4, st=1),
+            mkcfg("Revolve", max_n=260, ram=4), mkcfg("HRevolve", max_n=258, ram=3, disk=3),
+            # very many adjoint calculations of a one-step forward (cheap: 3-4 events per pass)
+            mkcfg("SingleDiskCopy", N=1, passes=1100), mkcfg("SingleMemory", N=1, passes=1100),
+            mkcfg("TwoLevel", N=1, passes=1100, period=1, ram=0, st=0)]
+    # the documented `for action in schedule: ... break` driving style, resumed with new for loops
+    for c in (mkcfg("TwoLevel", N=5, passes=3, period=2, ram=1, st=0), mkcfg("SingleMemory", N=3, passes=3),
+              mkcfg("SingleDiskCopy", N=3, passes=3), mkcfg("SingleDiskMove", N=3, passes=1),
+              mkcfg("Multistage", max_n=6, ram=1, disk=1), mkcfg("Mixed", max_n=6, ram=2, st=0),
+              mkcfg("HRevolve", max_n=6, ram=1, disk=1), mkcfg("Revolve", max_n=5, ram=2), mkcfg("None", N=2, passes=0)):
+        c["forloop"] = 1
+        out.append(c)
     for n in (13, 15, 19):
         for cm in (1, 2, 3):
             for c in (COSTS8[0], COSTS8[2], COSTS8[6], COSTS8[7], FRAC[0]):
